@@ -173,6 +173,24 @@ pub fn marker(m: u8, tail: &str) -> String {
     }
 }
 
+/// C12: an unsupported marker is reported as an error WHEREVER a type marker is expected - after any number of
+/// complete values and inside any open container, not only as the first byte of the input
+pub fn marker_at(prefix: &str, m: u8, tail: &str) -> String {
+    let (pre, t) = match (parse_bytes(prefix), parse_bytes(tail)) { (Some(a), Some(b)) => (a, b), _ => return "bad-op".into() };
+    let mut bs = pre.clone();
+    bs.push(m);
+    bs.extend_from_slice(&t);
+    let mut c = Cursor::new(&bs[..]);
+    let r = deserialize(&mut c);
+    let supported = [0u8, 1, 2, 3, 5, 6, 8, 9, 10].contains(&m);
+    match r {
+        _ if supported => "! ok supported".into(),
+        Err(DE::UnknownMarker { marker }) if marker == m => "! ok".into(),
+        Ok(v) => format!("! FAIL unsupported-marker-{}-after-{}-prefix-bytes-accepted {}", m, pre.len(), show_vals(&v.iter().map(from_lib).collect::<Vec<_>>())),
+        Err(e) => format!("! FAIL unsupported-marker-{}-after-{}-prefix-bytes-wrong-error {}", m, pre.len(), de_kind(&e)),
+    }
+}
+
 /// C14: decode an adversarial input on a thread with a fixed small stack; bound the allocation.
 /// kinds: arr (nested strict arrays), obj (nested objects), ecma, mix, count (huge count, no
 /// elements), strlen (declared 65535, 3 bytes present), nulls (many tiny values), props (many props)
